@@ -78,7 +78,7 @@ def sx_s(s):
     if k in ('load', 'store'):
         return '(%s %s)' % (k, sx_e(s[1]))
     if k == 'strobe':
-        return '(strobe %s)' % s[1]
+        return '(strobe %s)' % (s[1] if len(s) < 3 else '%s+%d' % (s[1], s[2]))
     if k == 'csleep':
         return '(csleep %d)' % s[1]
     if k == 'asm':
